@@ -1735,9 +1735,9 @@ class Interp:
             fr.si = 0
             return None
         allowed = self.lazy.allowed_variants(self, st, cur)
-        if not cur.excl:
-            self.domains[cur.name + "#d"] = sorted(allowed)
         dec = st.decisions.get(cur.name + "#d")
+        if not cur.excl and dec is None:
+            self.domains.setdefault(cur.name + "#d", sorted(allowed))
         alts = []
         named = set()
         for bv, bb in branches:
@@ -1957,6 +1957,8 @@ class Interp:
                     s.status = "unsupported"
                     fr = s.frames[-1] if s.frames else None
                     s.info = "%s [in %s bb%d]" % (u, fr.inst.name if fr else "?", fr.bb if fr else -1)
+                    if os.environ.get("MIRSYM_STACK"):
+                        s.info += " STACK: " + " <- ".join(f.inst.name[:90] for f in reversed(s.frames[-8:]))
                     self.unsupported[str(u)[:200]] = self.unsupported.get(str(u)[:200], 0) + 1
                     self.record_leaf(s)
                     break
